@@ -116,11 +116,11 @@ def apply_rules(commandLineArguments, oConfig, tIndexFileName):
         return fExitStatus, testCase, dJsonEntry, sOutputStd, sOutputErr, bStopProcessingFiles
 
     if commandLineArguments.fix:
-        if commandLineArguments.backup:
+        if commandLineArguments.backup and not commandLineArguments.stdin:
             create_backup_file(sFileName)
         oRules.fix(commandLineArguments.fix_phase, commandLineArguments.skip_phase, fix_only)
 
-        if oRules.had_violations:
+        if oRules.had_violations and not commandLineArguments.stdin:
             write_vhdl_file(oVhdlFile, oConfig.dConfig)
 
     oRules.clear_violations()
